@@ -536,7 +536,10 @@ pub fn toy_e139_is_a_group_of_order_163() {
     vcover!(!a.is_id());
 }
 
-/// the real curve, every point (identity, equal and opposite points included), every scalar of F_163
+/// the real curve's coordinates directly, every point (identity, equal and opposite points included), every scalar of F_163.
+/// NOT registered (n1: no answer in 30 min, the solver has to rediscover the group law through ~50 chord-and-tangent steps):
+/// `toy_e139_is_a_group_of_order_163` + `msm_serial_dlog163_n1` decide the same statement in two steps. Kept for the native replay
+/// binary (`replay_real c12::msm_serial_e139_n1 <finite,x,y,scalar>` runs the real code on the curve).
 #[cfg_attr(kani, kani::proof)]
 #[cfg_attr(kani, kani::unwind(11))]
 #[cfg_attr(kani, kani::stub(midnight_curves::msm::get_booth_index, crate::c12::booth_digit_by_definition))]
@@ -561,7 +564,9 @@ fn any_dlog<S: ToyScalar>() -> GA<Dlog<S>> {
     assume(k < S::Q);
     GA::new(Dlog(k, core::marker::PhantomData))
 }
-/// (Z_163, +): every element as a base (identity, repeated and opposite bases included), every scalar
+/// (Z_163, +): every element as a base (identity, repeated and opposite bases included), every scalar.
+/// Registered: n1. n2 / n3 (products of independent unknowns modulo 163) give no answer in 15 min; the unit-vector family below
+/// decides the coefficients one at a time instead.
 #[cfg_attr(kani, kani::proof)]
 #[cfg_attr(kani, kani::unwind(11))]
 #[cfg_attr(kani, kani::stub(midnight_curves::msm::get_booth_index, crate::c12::booth_digit_by_definition))]
